@@ -157,7 +157,7 @@ def replay_record(ctx, lc, rec, cached):
 def chain_events(ctx, lc, tid, start, nmoves, seed):
     """(V) a chain of moves with a recording RNG."""
     rng = ctx.rng
-    rec = rngshim.Recorder(seed, budget=4000)
+    rec = rngshim.Recorder(seed, budget=max(4000, 8 * len(start)))
     obj = lc.Sequence(start)
     if rng.random() < 0.5 or len(start) < 16:
         common.call(obj.deltaMax)
@@ -198,7 +198,9 @@ def chain_events(ctx, lc, tid, start, nmoves, seed):
         e["child"] = list(child.seq)
         e["childcp"] = cp_of(child)
         e["childlen"] = int(child.len)
-        if child.dmax != -1 and (step == 0 or step == nmoves - 1):
+        if child.dmax != -1 and (step == 0 or step == nmoves - 1) and len(start) <= 300:
+            # (TLC evaluates the whole documented family for this event; above 300 residues the carried value is compared with a
+            # freshly built object's instead, which is what the statement says)
             e["dmax"] = "set"
             e["dmaxfx"] = common.fx(child.dmax)
         elif child.dmax != -1:
@@ -208,7 +210,7 @@ def chain_events(ctx, lc, tid, start, nmoves, seed):
                 ctx.violation("carried-deltamax-wrong", {"move": move, "seq": pseq, "child": child.seq}, expected=ref_dmax, actual=child.dmax)
         ev.append(e)
         obj = child
-        rec.budget = 4000
+        rec.budget = max(4000, 8 * len(start))
     return {"tid": tid, "ev": ev}
 
 
@@ -256,6 +258,11 @@ def api_events(ctx, lc, tid, seq, seed):
         e = {"move": "full_shuffle", "parent": list(seq), "frozen": frozen, "tape": tla_tape(log), "parentafter": list(parent.seq),
              "parentcpafter": cp_of(parent), "st": "child", "child": list(child.seq), "childcp": cp_of(child), "childlen": int(child.len),
              "dmax": "set" if child.dmax != -1 else "unset", "dmaxfx": common.fx(child.dmax if child.dmax != -1 else 0)}
+        if len(seq) > 300 and child.dmax != -1:
+            e["dmax"] = "unset"
+            ref = common.call(lc.Sequence(child.seq).deltaMax, limit=300)
+            if ref[0] != "ok" or not common.close(child.dmax, __import__("fractions").Fraction(float(ref[1]))):
+                ctx.violation("carried-deltamax-wrong", {"api": which, "seq": seq, "child": child.seq}, expected=ref, actual=child.dmax)
         if out[1].get_sequence() != child.seq or len(out[1]) != len(seq):
             ctx.violation("child-length", {"api": which, "seq": seq}, actual=(out[1].get_sequence(), len(out[1])))
         ev.append(e)
@@ -296,6 +303,12 @@ def run(ctx):
         trs.append(chain_events(ctx, lc, len(trs) + 1, s, ctx.pick(12, 20), ctx.seed * 1000 + i))
         if i % 3 == 0:
             trs.append(api_events(ctx, lc, len(trs) + 1, s, ctx.seed * 1000 + 500 + i))
+    # chains and API calls on sequences of more than 1000 residues
+    for k_ in range(ctx.pick(2, 5)):
+        long_ = common.random_sequences(ctx.rng, 1, 1100, 1001)[0]
+        trs.append(chain_events(ctx, lc, len(trs) + 1, long_, ctx.pick(8, 14), ctx.seed * 1000 + 900 + k_))
+        if k_ == 0:
+            trs.append(api_events(ctx, lc, len(trs) + 1, long_, ctx.seed * 1000 + 950))
     trs = [t for t in trs if t["ev"]]
     verdicts, known = traces.validate(ctx, "Trace_Moves", trs)
     for n in ctx.last_trace_result.tagged.get("NOTE", []):
